@@ -80,3 +80,30 @@ def masked_action(env, obs, rng):
         out = [rng.choice(np.flatnonzero(r)) if r.any() else 0 for r in m]
         return np.asarray(out, dtype=spec.dtype)
     return random_action(env, rng)
+
+
+def illegal_action(env, obs, rng):
+    """An in-spec action the implementation's mask forbids (None when the layout is not understood or none exists)."""
+    m = getattr(obs, "action_mask", None)
+    spec = env.action_spec
+    if m is None or not hasattr(spec, "num_values"):
+        return None
+    nv = np.asarray(spec.num_values)
+    m = np.asarray(m)
+    if nv.ndim == 0:
+        idx = np.flatnonzero(~m.reshape(-1))
+        if m.reshape(-1).shape[0] == int(nv) and len(idx):
+            return np.asarray(rng.choice(idx), dtype=spec.dtype)
+        return None
+    if m.shape == tuple(int(x) for x in nv.reshape(-1)) and (~m).any():
+        idx = np.flatnonzero(~m.reshape(-1))
+        return np.asarray(np.unravel_index(rng.choice(idx), m.shape), dtype=spec.dtype).reshape(nv.shape)
+    if m.ndim == 2 and nv.ndim == 1 and m.shape[0] == nv.shape[0] and (m.shape[1] == nv).all() and (~m[0]).any():
+        out = [rng.choice(np.flatnonzero(r)) if r.any() else 0 for r in m]
+        out[0] = rng.choice(np.flatnonzero(~m[0]))      # agent 0 plays an illegal move
+        return np.asarray(out, dtype=spec.dtype)
+    return None
+
+
+# environments in which an illegal action ends the episode at once (used to force termination schedules)
+TERMINATE_ON_INVALID = ("TSP", "CVRP", "Knapsack", "Snake", "Minesweeper", "GraphColoring", "Cleaner", "Sudoku", "Tetris")
